@@ -21,8 +21,8 @@ EVID_DIR = os.path.join(VERIF, "evidence")
 LOG_DIR = os.path.join(VERIF, ".kvlogs")
 KNOWN_FILE = os.path.join(VERIF, "known_findings.json")
 
-MEM_BUDGET_GB = int(os.environ.get("KV_MEM_GB", "40"))
-MAX_JOBS = int(os.environ.get("KV_JOBS", "8"))
+MEM_BUDGET_GB = int(os.environ.get("KV_MEM_GB", "44"))
+MAX_JOBS = int(os.environ.get("KV_JOBS", "10"))
 
 # crates.io patches available to harness configurations.  `replay_keep` says whether the
 # patch is also in force when a counterexample is replayed natively.
@@ -310,7 +310,7 @@ def prepare_ws(root, name, harness_files, config, for_replay=False, extra_text=N
 def _limits(mem_gb):
     def f():
         os.setsid()
-        lim = mem_gb * 1024 ** 3
+        lim = max(16, 2 * mem_gb) * 1024 ** 3   # @mem is the scheduling weight (expected RSS); the hard cap is twice that
         resource.setrlimit(resource.RLIMIT_AS, (lim, lim))
     return f
 
@@ -747,6 +747,10 @@ def cmd_check(args):
         rep = native_replay(root, h, tests, h.name)
         res.replayed = rep
         reproduced = [(t, r) for t, r in zip(tests, rep) if r["reproduced"]]
+        if not reproduced and not any(r["ran"] for r in rep):
+            inconclusive.append((h.name, "native replay did not build or run (see %s): %s" % (
+                rep[0]["log"], "; ".join(t["description"] for t in tests[:3]))))
+            continue
         if not reproduced:
             why = "counterexample did not reproduce natively (encoding or stub suspected)"
             if any(t["failure"]["category"] == "pointer_dereference" for t in tests):
@@ -781,7 +785,7 @@ def cmd_check(args):
         res = results[h.name]
         log("[kv]   %-34s %-13s checks=%-5d covers=%d/%d wall=%.0fs %s" % (
             h.name, res.status, res.total, sum(1 for _, s in res.covers if s == "Satisfied"),
-            len(res.covers), res.wall, res.reason[:160]))
+            len(res.covers), res.wall, " ".join(res.reason.split())[:160]))
     for kf, hn, f in known_hits:
         log("KNOWN-FINDING: property=%s %s [%s: %s]" % (prop, kf.get("what", ""), hn, f["description"]))
     for hn, f, rpath in violations:
@@ -791,7 +795,7 @@ def cmd_check(args):
         return 1
     if inconclusive:
         for hn, why in inconclusive:
-            log("INCONCLUSIVE harness=%s %s" % (hn, why))
+            log("INCONCLUSIVE harness=%s %s" % (hn, " ".join(why.split())[:300]))
         return 2
     log("[kv] %s: all %d harnesses held within their bounds (%.0fs)" % (prop, len(hs), wall))
     return 0
